@@ -2,6 +2,7 @@ SPECIFICATION Spec
 CONSTANTS
   NeqForeignFamily = TRUE
   LiveResets = FALSE
+  LiveDropsIdle = FALSE
   Ifaces <- MCIfaces
   PktSet <- MCPkts
   QuerySet <- MCQueries
